@@ -266,6 +266,13 @@ func runC20(c *core.Ctx) *core.Outcome {
 			if ob.st.FlushErr == "" && ob.st.Out == "" {
 				return finishModel(o, c, r).Fail("graceful-end-no-output", i, nil, "request %d input %s: the session ended gracefully but no final output was delivered", i, short(string(in)))
 			}
+			// the final output ends with the exit value: what the session loaded last
+			if ob.st.FlushErr == "" && r.m.LastLoad != "" && !strings.HasSuffix(ob.st.Out, r.m.LastLoad) {
+				return finishModel(o, c, r).Fail("graceful-end-exit-value-lost", i, nil, "request %d input %s: the session ended gracefully; the value it loaded last is %s, the final output is %s", i, short(string(in)), short(r.m.LastLoad), short(ob.st.Out))
+			}
+			if r.m.LastLoad != "" {
+				o.Probes["graceful_end_exit_value_compared"]++
+			}
 			// the stored session: empty symbol cache, client flags kept
 			if r.s.Ca != nil {
 				n := 0
